@@ -269,10 +269,12 @@ func run(c *hlib.Ctx) {
 	runGenerators(c)
 	runRectSets(c)
 	runC2F(c)
+	runSearch(c)
+	runRectOps(c)
 }
 
 // soup3 sends a real mesh (exact float coordinates, interned vertex ids) to the proved deciders.
-func soup3(c *hlib.Ctx, name string, build func() *model3d.Mesh) {
+func soup3(c *hlib.Ctx, name string, build func() *model3d.Mesh, tag ...string) {
 	var op string
 	res := hlib.Guard(func() string {
 		m := build()
@@ -289,6 +291,9 @@ func soup3(c *hlib.Ctx, name string, build func() *model3d.Mesh) {
 			}
 		})
 		op = fmt.Sprintf("c01 soup3 %d %s %d %s", len(ids), strings.Join(coords, " "), len(tris)/3, strings.Join(tris, " "))
+		if len(tag) > 0 {
+			op += " " + strings.Join(tag, " ") // trailing tokens are ignored by the driver: they name the generator call
+		}
 		return "balanced=1 fans=1 outward=1"
 	})
 	if op == "" {
@@ -341,25 +346,91 @@ func runGenerators(c *hlib.Ctx) {
 			return model3d.NewMeshIcosphere(model3d.XYZ(1, 2, 3), 0.7, n)
 		})
 	}
-	for i := 0; i < reps; i++ {
-		soup3(c, "polar", func() *model3d.Mesh {
-			a, b := rf(0, 0.4), rf(1, 5)
-			return model3d.NewMeshPolar(func(g model3d.GeoCoord) float64 {
-				return 1 + a*math.Sin(b*g.Lat)*math.Cos(g.Lon)
-			}, 3+c.Rng.Intn(30))
+	// ---- the discretisation parameter of the parametric generators, COMPLETELY over a range: whether a seam or a
+	// pole closes is a question about float rounding of k*(2*pi/stops) (and of sin/cos at the results), which
+	// depends on the individual value of `stops` and on nothing else - so every value from 3 up to a bound is
+	// meshed (the radius function varies from value to value), and a few larger ones are drawn at random.
+	polarAll, polarMax := 104, 420
+	if c.N > 1000 {
+		polarAll = 180
+	}
+	polarRadius := func() func(g model3d.GeoCoord) float64 {
+		a, b := rf(0, 0.4), rf(1, 5)
+		if c.Rng.Intn(4) == 0 {
+			return nil // documented: nil = unit sphere
+		}
+		return func(g model3d.GeoCoord) float64 { return 1 + a*math.Sin(b*g.Lat)*math.Cos(g.Lon) }
+	}
+	for stops := 3; stops <= polarAll; stops++ {
+		stops := stops
+		c.Stat("c01.polar.stops_swept", 1)
+		soup3(c, "polar", func() *model3d.Mesh { return model3d.NewMeshPolar(polarRadius(), stops) },
+			fmt.Sprintf("fn=NewMeshPolar stops=%d", stops))
+	}
+	for i := 0; i < reps/2+1; i++ {
+		stops := polarAll + 1 + c.Rng.Intn(polarMax-polarAll)
+		c.Stat("c01.polar.stops_random_large", 1)
+		soup3(c, "polar", func() *model3d.Mesh { return model3d.NewMeshPolar(polarRadius(), stops) },
+			fmt.Sprintf("fn=NewMeshPolar stops=%d", stops))
+	}
+	for stops := 3; stops <= 2*polarAll; stops++ {
+		stops := stops
+		a := rf(0, 0.5)
+		soup2(c, "polar2d", func() *model2d.Mesh {
+			return model2d.NewMeshPolar(func(t float64) float64 { return 1 + a*math.Sin(3*t) }, stops)
 		})
+	}
+	for i := 0; i < c.N/5+5; i++ {
+		soup3(c, "heightmap_grid", func() *model3d.Mesh {
+			// the grid filled directly (SetHeightSquaredAt / Data are public): isolated cells, cells touching
+			// diagonally (singular vertices on the zero level), cells on the border rows / columns, equal and tiny
+			// heights - what smooth sphere unions almost never produce
+			rows, cols := 2+c.Rng.Intn(7), 2+c.Rng.Intn(7)
+			hm := toolbox3d.NewHeightMap(model2d.XY(0, 0), model2d.XY(float64(cols-1), float64(rows-1)), maxInt(rows, cols))
+			bs := randBits(c, hm.Rows*hm.Cols, []int{hm.Cols, hm.Rows})
+			hts := []float64{1, 1, 0.25, 4, 2.25, 1e-12, 1e-4}
+			same := c.Rng.Intn(3) == 0
+			for k := range hm.Data {
+				if k < len(bs) && bs[k] {
+					if same {
+						hm.Data[k] = 1
+					} else {
+						hm.Data[k] = hts[c.Rng.Intn(len(hts))]
+					}
+				}
+			}
+			if hm.MaxHeight() == 0 {
+				hm.Data[c.Rng.Intn(len(hm.Data))] = 1 // an empty map has an empty mesh: nothing to judge
+			}
+			if c.Rng.Intn(2) == 0 {
+				return hm.Mesh()
+			}
+			return hm.MeshBidir()
+		})
+	}
+	// seam handling by index (i % stops): cheap meshes, a wide range of stop counts
+	wideStops := func() int {
+		if c.Rng.Intn(2) == 0 {
+			return 3 + c.Rng.Intn(40)
+		}
+		return 3 + c.Rng.Intn(600)
+	}
+	for i := 0; i < reps; i++ {
 		soup3(c, "cylinder", func() *model3d.Mesh {
 			p := model3d.XYZ(rf(-1, 1), rf(-1, 1), rf(-1, 1))
-			return model3d.NewMeshCylinder(p, p.Add(rdir().Scale(rf(0.1, 3))), rf(0.05, 2), 3+c.Rng.Intn(40))
+			return model3d.NewMeshCylinder(p, p.Add(rdir().Scale(rf(0.1, 3))), rf(0.05, 2), wideStops())
 		})
 		soup3(c, "cone", func() *model3d.Mesh {
 			p := model3d.XYZ(rf(-1, 1), rf(-1, 1), rf(-1, 1))
-			return model3d.NewMeshCone(p, p.Add(rdir().Scale(rf(0.1, 3))), rf(0.05, 2), 3+c.Rng.Intn(40))
+			return model3d.NewMeshCone(p, p.Add(rdir().Scale(rf(0.1, 3))), rf(0.05, 2), wideStops())
 		})
 		soup3(c, "torus", func() *model3d.Mesh {
 			inner := rf(0.05, 0.9)
-			return model3d.NewMeshTorus(model3d.XYZ(rf(-1, 1), rf(-1, 1), rf(-1, 1)), rdir(), inner, inner+rf(0.2, 2),
-				3+c.Rng.Intn(20), 3+c.Rng.Intn(20))
+			is, os := 3+c.Rng.Intn(20), 3+c.Rng.Intn(20)
+			if c.Rng.Intn(3) == 0 {
+				is, os = 3+c.Rng.Intn(90), 3+c.Rng.Intn(90)
+			}
+			return model3d.NewMeshTorus(model3d.XYZ(rf(-1, 1), rf(-1, 1), rf(-1, 1)), rdir(), inner, inner+rf(0.2, 2), is, os)
 		})
 		soup3(c, "profile", func() *model3d.Mesh {
 			// a star-shaped polygon, clockwise or not is the library's business
